@@ -8,6 +8,7 @@ Inputs' str() and an independent content dump of the database are compared befor
 trace of gffutils' own connection is searched for write statements.
 """
 import json
+import re
 import os
 from collections import Counter
 
@@ -16,6 +17,7 @@ from gvmon.gen import c15_gen as G
 from gvmon.models import c15_gaps as M
 from gvmon.monitors import contracts, sqltrace
 
+G_NUMBER = re.compile(r"^-?[0-9]+(\.[0-9]+)?$")
 RULE = ("lists of 1..8 features, start-ordered inside each seqid block, consecutive pairs drawn from {1-base gap, longer gap, "
         "touching, overlapping, nested, identical, seqid change with and without room in between} x strands {+,-,.} mixed or "
         "uniform x attribute sets sharing keys with equal / different / numeric / multiple values x new_featuretype x "
@@ -34,7 +36,7 @@ ASSUMPTIONS = [
     "'at least one base between them' = next.start - previous.end >= 2; lists are start-ordered inside a block of one seqid "
     "(the statement speaks of features given in order), exon starts are distinct inside a transcript",
     "'sorted union' = Python code-point order of the distinct values; under numeric_sort numeric order when every value of "
-    "the key matches -?digits(.digits)?; numerically equal values written differently are not generated",
+    "the key matches -?digits(.digits)?; numerically equal values written differently ('2', '2.0') are generated and may come in any order among themselves",
     "with merge_attributes=False the statement does not determine the attributes (docstrings disagree with each other): only "
     "geometry, type, strand and the keys of update_attributes are compared; update_attributes never sets several ID values",
     "score, frame, source, bin and key order of the yielded features are not part of the statement and not compared; "
@@ -75,6 +77,25 @@ def attrs_of(f):
     return out
 
 
+def tie_norm(attrs):
+    """The statement fixes numeric order but not the order of numerically equal values written differently
+    ('2' and '2.0'): inside a run of equal numbers the values are put in text order before comparing."""
+    out = {}
+    for k, vals in attrs.items():
+        vals = list(vals)
+        if len(vals) > 1 and all(G_NUMBER.match(v) for v in vals):
+            res, i = [], 0
+            while i < len(vals):
+                j = i
+                while j + 1 < len(vals) and float(vals[j + 1]) == float(vals[i]):
+                    j += 1
+                res.extend(sorted(vals[i:j + 1]))
+                i = j + 1
+            vals = res
+        out[k] = vals
+    return out
+
+
 def geometry(f):
     return {"seqid": f.seqid, "start": f.start, "end": f.end, "featuretype": f.featuretype, "strand": f.strand}
 
@@ -87,7 +108,7 @@ def compare_gap(f, exp):
             return "coordinates differ" if k in ("start", "end") else "%s differs" % k
     a = attrs_of(f)
     if exp.get("attrs") is not None:
-        if a != exp["attrs"]:
+        if tie_norm(a) != tie_norm(exp["attrs"]):
             return "attributes differ"
     else:
         for k, v in exp.get("must_have", {}).items():
@@ -300,7 +321,7 @@ def transcripts_of(recs, fmt, opts):
 def canon(d, with_attrs):
     key = [d["seqid"], d["start"], d["end"], d["featuretype"], d["strand"]]
     if with_attrs:
-        key.append(sorted((k, list(v)) for k, v in d["attrs"].items()))
+        key.append(sorted((k, list(v)) for k, v in tie_norm(d["attrs"]).items()))
     return json.dumps(key, ensure_ascii=True)
 
 
